@@ -36,6 +36,15 @@ fn main() {
                 let got = ZodVisitor::with_config(&cfg).visit_type_for_interface(t);
                 if got == want_ts { Ok(got) } else { Err(format!("ZodVisitor::visit_type_for_interface gives `{}`, C05/C18 table gives `{}`", got, want_ts)) }
             });
+            if m.is_empty() {
+                // C02: the rendered type as it appears in commands.ts / events.ts
+                let rendered = pp(&den(&m, t), false);
+                let want_q = pp(&qualify(&den(&m, t), true), false);
+                rep.case("prefix_qualifies", &format!("{} rendered as `{}`", show(t), rendered), &|| {
+                    let got = tauri_typegen::generators::base::templates::verif_add_types_prefix(&rendered);
+                    if got == want_q { Ok(got) } else { Err(format!("add_types_prefix(`{}`) = `{}`, C02 requires `{}`", rendered, got, want_q)) }
+                });
+            }
             let want_z = zs(&m, t, false, true);
             rep.case("zod_param_schema", &input, &|| {
                 let got = ZodSchemaBuilder::new(&cfg).build_param_schema(t);
